@@ -732,6 +732,7 @@ func (pl *plan) build() {
 	pl.streams = append(pl.streams, exprEnumStream(maxLen))
 	pl.streams = append(pl.streams, exprRandStream(pl.seed, nrand))
 	pl.streams = append(pl.streams, exprTypedStream())
+	pl.streams = append(pl.streams, exprSectionStream())
 	// (iii) byte level, all four channels
 	per := 70
 	if !quick {
@@ -1040,6 +1041,33 @@ func exprTypedStream() *Stream {
 	}
 	return &Stream{Name: "expr-typed", N: len(exprs), Get: func(i int) *Case {
 		return &Case{Stream: "expr-typed", Idx: i, Channel: chWorkflow, Data: exprWorkflow(exprs[i]), Desc: fmt.Sprintf("typed expression %q in run:, if: and if: ${{ }}", exprs[i])}
+	}}
+}
+
+// operands of every static type as the WHOLE value of the sections that may be given by one
+// placeholder (matrix, its rows / include / exclude and their elements, env, services, container,
+// runs-on, with / secrets of a call, ...): the arms that look INTO the type of such a value
+var sectionOperands = append(append([]string{}, typedOperands...),
+	"fromJSON('{\"include\": []}')", "fromJSON('{\"include\": [1]}')", "fromJSON('{\"Include\": [[1]]}')", "fromJSON('{\"include\": {\"a\": 1}}')",
+	"fromJSON('{\"include\": null}')", "fromJSON('{\"include\": \"x\"}')", "fromJSON('{\"include\": [{\"a\": 1}]}')", "fromJSON('{\"include\": [{\"a\": 1}, 2]}')",
+	"fromJSON('{\"exclude\": [1], \"os\": [1]}')", "fromJSON('{\"os\": 1}')", "fromJSON('{\"os\": [], \"INCLUDE\": [null]}')", "fromJSON('{}')", "fromJSON('[]')",
+	"fromJSON('{\"image\": 1, \"ports\": 2, \"credentials\": []}')", "fromJSON('{\"db\": 1}')", "fromJSON('{\"db\": {\"image\": []}}')", "fromJSON('[[]]')")
+
+func sectionWorkflow(x string) []byte {
+	e := yamlDQ("${{ " + x + " }}")
+	var b strings.Builder
+	b.WriteString("on: push\nenv: " + e + "\nconcurrency: " + e + "\njobs:\n")
+	b.WriteString("  a:\n    runs-on: " + e + "\n    strategy:\n      matrix: " + e + "\n    env: " + e + "\n    services: " + e + "\n    container: " + e + "\n    environment: " + e + "\n    concurrency: " + e + "\n    steps:\n      - run: echo ${{ matrix.os }} ${{ matrix.include }} ${{ env.A }} ${{ job.services.db.id }}\n        env: " + e + "\n")
+	b.WriteString("  b:\n    runs-on: ubuntu-latest\n    strategy:\n      matrix:\n        os: " + e + "\n        include: " + e + "\n        exclude: " + e + "\n    container:\n      image: x\n      env: " + e + "\n    services:\n      db:\n        image: x\n        env: " + e + "\n    steps:\n      - run: echo ${{ matrix.os.a }} ${{ matrix.a }}\n")
+	b.WriteString("  c:\n    runs-on: [self-hosted, " + e + "]\n    strategy:\n      matrix:\n        os: [" + e + ", 1]\n        include:\n          - " + e + "\n          - a: " + e + "\n        exclude:\n          - " + e + "\n          - os: " + e + "\n    steps:\n      - run: echo ${{ matrix.os }} ${{ matrix.a.b }}\n")
+	b.WriteString("  d:\n    uses: ./.github/workflows/x.yml\n    with:\n      v: " + e + "\n    secrets:\n      s: " + e + "\n")
+	return []byte(b.String())
+}
+
+func exprSectionStream() *Stream {
+	o := sectionOperands
+	return &Stream{Name: "expr-section", N: len(o), Get: func(i int) *Case {
+		return &Case{Stream: "expr-section", Idx: i, Channel: chWorkflow, Data: sectionWorkflow(o[i]), Desc: fmt.Sprintf("expression %q as the whole value of every section that may be given by one placeholder", o[i])}
 	}}
 }
 
